@@ -49,7 +49,7 @@ func (s *Softmax) Apply(inputs []tensor.Tensor) ([]tensor.Tensor, error) {
 		axis += nDims
 	}
 
-	out, err := tensor.SoftMax(inputs[0], axis)
+	out, err := softmax(input, axis, false)
 	if err != nil {
 		return nil, err
 	}
